@@ -10,7 +10,7 @@ from rfbreal import Cfg, canon_model, merge_writes
 
 TRUSTED_BASE = ["Model/Rfb.v (commit / waiter / op_capture) hand-written", "harness/rfbgen.py reference canvas and encoders",
                 "Pillow PNG save/load (the saved file is decoded again to compare pixels)"]
-ASSUMPTIONS = ["captures are sequential (script chain / blocking API): a new capture is issued after the previous one completed"]
+ASSUMPTIONS = ["captures are sequential (script chain / blocking API): a new capture is issued after - possibly from the completion callback of - the previous one"]
 EXTRA_VO = ["Proofs/RfbTie.vo"]
 
 
@@ -125,6 +125,78 @@ def judge(r, exps):
     return None
 
 
+def chained(camp, rng, n):
+    """captures issued from the completion of the previous one (the script chain of `vncdo capture a capture b`, or
+    d.addCallback(lambda c: c.captureScreen(...))): each must still complete at its own update"""
+    import io
+    from PIL import Image
+    from twisted.internet.testing import StringTransport
+    from vncdotool import client as vclient
+    import clientops
+    for i in range(n):
+        W, H = rng.choice([4, 8, 12]), rng.choice([4, 6, 9])
+        c = vclient.VNCDoToolClient()
+        c.factory = vclient.VNCDoToolFactory()
+        c.factory.nocursor = True
+        c.makeConnection(StringTransport())
+        c.dataReceived(b"RFB 003.008\n\x01\x01\0\0\0\0" + struct.pack("!HH16sI", W, H, rfbgen.RGB32.block(), 0))
+
+        def update(colour):
+            px = bytes([colour[0], colour[1], colour[2], 0]) * (W * H)
+            half = W * 2 * 4
+            return (b"\0\0\0\x02" + struct.pack("!HHHHi", 0, 0, W, 2, 0) + px[:half]
+                    + struct.pack("!HHHHi", 0, 2, W, H - 2, 0) + px[half:])
+        c.dataReceived(update((1, 2, 3)))
+        k = rng.randrange(2, 5)
+        fps = [io.BytesIO() for _ in range(k)]
+        regions = [None if rng.random() < 0.6 else (rng.randrange(W), rng.randrange(H), rng.randrange(1, 4), rng.randrange(1, 4)) for _ in range(k)]
+
+        def start(j, cl):
+            if regions[j] is None:
+                return cl.captureScreen(fps[j], False, format="png")
+            return cl.captureRegion(fps[j], *regions[j], format="png") if False else cl._capture(fps[j], False, regions[j][0], regions[j][1], regions[j][0] + regions[j][2], regions[j][1] + regions[j][3], format="png")
+        c.transport.clear()
+        d = start(0, c)
+        for j in range(1, k):
+            d.addCallback(lambda cl, j=j: start(j, cl))
+        finished = []
+        d.addCallback(lambda cl: finished.append(True))
+        camp.evaluations += 1
+        camp.count("chained-captures", k)
+        camp.nontrivial.add(("chained", i))
+        why = None
+        for j in range(k):
+            reqs = clientops.parse_c2s(c.transport.value())
+            c.transport.clear()
+            if reqs != [("FbUpdateRequest", 0, 0, 0, W, H)]:
+                why = f"chained capture #{j}: requests written {reqs}, exactly one whole-desktop request expected"
+                break
+            colour = (10 + 20 * j, 200 - 30 * j, 5 * j)
+            data = update(colour)
+            cutat = rng.randrange(1, len(data))
+            c.dataReceived(data[:cutat])
+            if fps[j].getvalue():
+                why = f"chained capture #{j}: image written before its update was complete"
+                break
+            c.dataReceived(data[cutat:])
+            raw = fps[j].getvalue()
+            if not raw:
+                why = f"chained capture #{j} (issued from the completion of capture #{j - 1}): no image was written when its update was applied"
+                break
+            im = Image.open(io.BytesIO(raw)).convert("RGB")
+            want_size = (W, H) if regions[j] is None else (regions[j][2], regions[j][3])
+            px = set(im.getdata())
+            inside = regions[j] is None or (regions[j][0] + regions[j][2] <= W and regions[j][1] + regions[j][3] <= H)
+            if im.size != want_size or (inside and px != {colour}):
+                why = f"chained capture #{j}: image {im.size} with colours {sorted(px)[:3]}, expected {want_size} of {colour}"
+                break
+        if not why and not finished:
+            why = "the chain of captures did not run to its end"
+        if why:
+            camp.oracle_failures.append({"kind": "oracle", "property": "C06", "case": {"chained": i, "captures": k}, "what": why})
+            return
+
+
 def run(tier, seed, model):
     camp = common.Campaign()
     rng = random.Random(seed * 7919 + 6)
@@ -155,6 +227,7 @@ def run(tier, seed, model):
         if len(camp.samples) < 4 and i % 61 == 0:
             camp.samples.append({"items": [it[0] if it[0] != "chunk" else f"chunk:{len(it[1])}B" for it in items][:14],
                                  "captures": len(exps)})
+    chained(camp, rng, 25 if tier == "quick" else 500)
     if model is not None and reqs:
         for ans, (i, r) in zip(model.call_many(reqs), meta):
             ev, fin = canon_model(ans)
